@@ -20,7 +20,10 @@ MANIFEST = dict(
          "which loses the sub-array shape for some array dimensionality; combine_fields' rejection of arrays of different length compares "
          ".shape, not a quantity arrays of different length can share (.size, .ndim, one axis); the sequence that drives each field list is the "
          "documented one (extract/remove and the tail of reorder walk the array's own fields in dtype order, the head of reorder and split_fields "
-         "walk the request in the order given; never a sorted / set / reversed collection of names); the returned array is fresh (alias analysis: it shares no buffer with "
+         "walk the request in the order given; never a sorted / set / reversed collection of names); extract_fields' strict-mode rejection, "
+         "read as a quantifier over the requested names (per-name loop, np.isin mask, list or count of missing names), is reached whenever SOME "
+         "name is not a field; copy_fields_by_name assigns the supplied value itself, never re-typed to the field's record type "
+         "(arr.dtype[name] carries the sub-array shape); the returned array is fresh (alias analysis: it shares no buffer with "
          "any argument).",
     note="Not decided: element-wise equality (numpy field assignment trusted), rejection of a shared name (delegated to numpy.dtype "
          "construction, a trusted idiom). remove_fields documents only scalar/list names; tuple/array name lists are an observation.",
@@ -34,7 +37,7 @@ NU = "esutil.numpy_util."
 # rules that keep their verdict however the code is laid out (decided on the symbolic values below and on the effect analysis);
 # every other rule of this check is a template rule (vcheck.core.Check.obt): it is evaluated on the same values but a mismatch
 # in a restructured function is "not recognised", not a violation
-SEMANTIC = ('R07.alloc', 'R07.args', 'R07.copier', 'R07.defaults', 'R07.fresh', 'R07.nonempty', 'R07.lookup', 'R07.entry', 'R07.samelen', 'R07.seq')
+SEMANTIC = ('R07.alloc', 'R07.args', 'R07.copier', 'R07.defaults', 'R07.fresh', 'R07.nonempty', 'R07.lookup', 'R07.entry', 'R07.samelen', 'R07.seq', 'R07.strict')
 
 
 # --------------------------------------------------------------------------------------------------------------------
@@ -987,6 +990,11 @@ class _Interp:
                 return self.copy_of(a0, st)
             if nm == "atleast_1d" or kws.get("ndmin") == ("C", 1):
                 return ("NORM", a0, "atleast_1d", frozenset())
+            # a conversion to an explicit type keeps that type as a fifth component (the second positional argument of
+            # array/asarray/asanyarray is the dtype)
+            dt = kws.get("dtype", args[1] if len(args) > 1 and nm != "atleast_1d" else None)
+            if dt is not None and dt != ("C", None):
+                return ("NORM", a0, "array", frozenset(), dt)
             return ("NORM", a0, "array", frozenset())
         if nm in ALLOCATORS and (is_np or isinstance(f, ast.Name)) and ("dtype" in kws or len(args) > 1):
             like = nm.endswith("_like")
@@ -1547,8 +1555,8 @@ def _no_field_left(it, alloc):
     return alloc.d["segs"] is not None and any(_rejects_empty(it, alloc, e, None) for e in _raises(it))
 
 
-def _missing_strict(it, fi, F, pname, strict_name="strict"):
-    """a raise reached for a requested name that is not a field of F, under `strict`"""
+def _missing_strict(it, fi, F, pname, strict_name="strict", skip=()):
+    """a raise reached for a requested name that is not a field of F, under `strict` (skip: raise events not to count)"""
     strict = ("TRUE", ("P", strict_name))
 
     def missing_list(t):
@@ -1570,6 +1578,8 @@ def _missing_strict(it, fi, F, pname, strict_name="strict"):
         own = [g for g in ctx[1] if not any(g is x for x in e.guards)]
         return len(own) == 1 and own[0].cond == strict and own[0].pol and own[0].kind == "filter"
     for e in _raises(it):
+        if any(e is x for x in skip):
+            continue
         under = _g(e, lambda g: g.cond == strict and g.pol)
         for g in e.guards:
             c = g.cond
@@ -1585,6 +1595,139 @@ def _missing_strict(it, fi, F, pname, strict_name="strict"):
                     any(missing_list(a) and made_under_strict(a, e) for a in c[1][1:]):
                 return True
     return False
+
+
+# -- which requests a strict-mode raise rejects, as a quantifier over the requested names -----------------------------------------
+# The clause: in strict mode a request that names a missing field is rejected, i.e. the raise is reached exactly when SOME requested
+# name is not a field.  A test over all the names at once (np.isin / in1d mask, a list of per-name tests, a list or a count of the
+# missing / found names) is read as ('EX' | 'ALL', p): it holds when some / every requested name is (p) or is not (not p) a field.
+# ('EX', False) is the documented condition; the three others are positively different conditions (a request mixing existing and
+# missing names passes `every name is missing`, an all-missing request passes `some name is a field`, ...).
+
+def _name_mask(it, t, F, pname, depth=0):
+    """p when t is a truth value per requested name: element i says `name i is a field of F` (p True) / `is not` (p False)"""
+    if depth > 6 or not (isinstance(t, tuple) and t):
+        return None
+    h = t[0]
+    if h == "CALL" and t[1] in ("isin", "in1d") and len(t[2]) == 2 and _param_of(t[2][0]) == pname and _members(t[2][1]) == ("NAMES", F):
+        return True
+    if (h == "UN" and t[1] == "Invert") or (h == "CALL" and t[1] == "logical_not" and len(t[2]) == 1):
+        p = _name_mask(it, t[2] if h == "UN" else t[2][0], F, pname, depth + 1)
+        return None if p is None else not p
+    if h == "NORM" and t[2] == "array" and len(t) == 4:
+        return _name_mask(it, t[1], F, pname, depth + 1)
+    if h == "LIST":
+        segs = it.heap.get(t[1], [])
+        if len(segs) == 1 and len(segs[0].loops) == 1 and not _filters(segs[0].guards):
+            lp, el = segs[0].loops[0], segs[0].elem
+            if not lp.broken and _param_of(lp.src) == pname and el[0] == "COND" and el[1][0] == "IN" and el[1][2] == ("NAMES", F) and \
+                    el[1][1] == ("ELEM", lp.src, lp.id):
+                return bool(el[2])
+    return None
+
+
+def _name_selection(it, t, F, pname, strict=None, depth=0):
+    """p when t holds the requested names that are (p True) / are not (p False) fields of F, or their positions:
+    request[mask], np.flatnonzero(mask), np.where(mask)[0], [n for n in request if n (not) in fields]"""
+    if depth > 6 or not (isinstance(t, tuple) and t):
+        return None
+    h = t[0]
+    if h == "ITEM" and _param_of(t[1]) == pname:
+        return _name_mask(it, t[2], F, pname)
+    if h == "ITEM" and t[2] == ("C", 0) and t[1][0] == "CALL" and t[1][1] in ("where", "nonzero") and len(t[1][2]) == 1:
+        return _name_mask(it, t[1][2][0], F, pname)
+    if h == "CALL" and t[1] == "flatnonzero" and len(t[2]) == 1:
+        return _name_mask(it, t[2][0], F, pname)
+    if h == "NORM" and t[2] == "array" and len(t) == 4:
+        return _name_selection(it, t[1], F, pname, strict, depth + 1)
+    if h == "LIST":
+        segs = it.heap.get(t[1], [])
+        if len(segs) == 1 and len(segs[0].loops) == 1:
+            lp, el = segs[0].loops[0], segs[0].elem
+            fl = [g for g in _filters(segs[0].guards) if not (g.cond == strict and g.pol)]
+            if not lp.broken and _param_of(lp.src) == pname and el == ("ELEM", lp.src, lp.id) and len(fl) == 1 and \
+                    fl[0].cond == ("IN", el, ("NAMES", F)):
+                return bool(fl[0].pol)
+    return None
+
+
+def _name_count(it, t, F, pname, strict=None):
+    """p when t is the number of requested names that are (p True) / are not (p False) fields of F"""
+    if not (isinstance(t, tuple) and t):
+        return None
+    if t[0] == "CALL" and t[1] in ("sum", "count_nonzero") and len(t[2]) == 1:
+        return _name_mask(it, t[2][0], F, pname)
+    if t[0] == "MCALL" and t[1] == "sum" and len(t) == 4 and not t[3]:
+        return _name_mask(it, t[2], F, pname)
+    if t[0] in ("LEN", "SIZE") and len(t) == 2:
+        return _name_selection(it, t[1], F, pname, strict)
+    return None
+
+
+_QTEXT = {("EX", False): "some requested name is not a field", ("ALL", False): "every requested name is missing (none is a field)",
+          ("EX", True): "some requested name is a field", ("ALL", True): "every requested name is a field"}
+
+
+def _strict_quantifier(it, e, g, F, pname, strict):
+    """('EX'|'ALL', p) when guard g of the raise e holds exactly when some / every requested name is (p) / is not (not p) a field"""
+    c, q = g.cond, None
+    if c[0] == "IN" and c[2] == ("NAMES", F) and c[1][0] == "ELEM" and _param_of(c[1][1]) == pname:
+        # the raise sits in a walk over the whole request: it is reached when some name passes the per-name test
+        lp = [x for x in e.loops if x.id == c[1][2]]
+        return ("EX", bool(g.pol)) if lp and not lp[0].broken and _param_of(lp[0].src) == pname else None
+    if c[0] == "TRUE":
+        v = c[1]
+        if v[0] == "CALL" and v[1] in ("any", "all") and len(v[2]) == 1:
+            p = _name_mask(it, v[2][0], F, pname)
+            q = None if p is None else ("EX" if v[1] == "any" else "ALL", p)
+        elif v[0] == "MCALL" and v[1] in ("any", "all") and len(v) == 4 and not v[3]:
+            p = _name_mask(it, v[2], F, pname)
+            q = None if p is None else ("EX" if v[1] == "any" else "ALL", p)
+        else:
+            p = _name_count(it, v, F, pname, strict)
+            if p is None:
+                p = _name_selection(it, v, F, pname, strict)
+            q = None if p is None else ("EX", p)            # a non-zero count / a non-empty selection
+    elif c[0] == "EQ":
+        for x, y in ((c[1], c[2]), (c[2], c[1])):
+            p = _name_count(it, x, F, pname, strict)
+            if p is None:
+                continue
+            if y == ("C", 0):
+                q = ("ALL", not p)
+            elif y[0] in ("LEN", "SIZE") and len(y) == 2 and _param_of(y[1]) == pname:
+                q = ("ALL", p)
+    if q is None:
+        return None
+    return q if g.pol else ("ALL" if q[0] == "EX" else "EX", not q[1])
+
+
+def _strict_missing_verdict(it, fi, F, pname, strict_name="strict"):
+    """(verdict, raise event, text).  True: some strict-mode raise is reached whenever a requested name is not a field of F;
+    False: the strict-mode raises are all positively identified and each is confined to a different condition on the names;
+    None: a strict-mode raise is controlled by a test that is not recognised (or there is none)"""
+    strict = ("TRUE", ("P", strict_name))
+    correct, wrong, unknown = [], [], []
+    for e in _raises(it):
+        if not _g(e, lambda g: g.cond == strict and g.pol):
+            continue
+        # a guard whose other outcome raises is an earlier rejection: the requests it turns away are rejected all the same
+        rest = [g for g in e.guards if not (g.cond == strict and g.pol) and g.kind != "reject"]
+        qs = [_strict_quantifier(it, e, g, F, pname, strict) for g in rest]
+        off = [(g, q) for g, q in zip(rest, qs) if q is not None and q != ("EX", False)]
+        if off:
+            wrong.append((e,) + off[0])       # a conjunction is at most as wide as any of its conjuncts
+        elif not rest or any(q is None for q in qs):
+            unknown.append(e)
+        else:
+            correct.append(e)
+    if correct or _missing_strict(it, fi, F, pname, strict_name, skip=[w[0] for w in wrong]):
+        return True, None, ""
+    if unknown or not wrong:
+        return None, None, " (not recognised: %s)" % ([list(e.guards) for e in unknown][:1] or it.failed or "no raise under `%s`" % strict_name)
+    e, g, q = wrong[0]
+    return False, e, ": the raise at line %s is reached only when %s (`%s`), not whenever %s: a request that names both existing and " \
+        "missing fields, or only missing ones, can pass" % (getattr(e.node, "lineno", "?"), _QTEXT[q], norm(g.node.test)[:80] if isinstance(g.node, (ast.If, ast.IfExp, ast.While)) else _show(g.cond)[:80], _QTEXT[("EX", False)])
 
 
 def _deps(it, t, seen=None):
@@ -2046,7 +2189,13 @@ def extract(chk, repo, fi, it, alloc):
     F = _filtered(chk, fi, it, alloc, fi.params[1], True, "original-order-filtered-by-membership",
                   "extraction walks arr.dtype.descr in original order and keeps the unmodified entry when its name is requested",
                   "name-is-entry[0]", "the tested name is the entry's own name")
-    chk.ob("R07.reject", q + "::missing-name-strict", _missing_strict(it, fi, F, fi.params[1]), fi.where(), "strict mode rejects a requested name that is not a field")
+    ok, ev, txt = _strict_missing_verdict(it, fi, F, fi.params[1])
+    # (the same rejection written over all names at once -- a membership mask, a list or a count of the missing names -- is accepted
+    # when it is proved to be reached whenever some requested name is not a field)
+    chk.ob("R07.reject", q + "::missing-name-strict", _missing_strict(it, fi, F, fi.params[1]) or ok is True, fi.where(), "strict mode rejects a requested name that is not a field")
+    chk.ob("R07.strict", q + "::any-missing-name-rejected", ok, _where(fi, ev) if ev is not None and ev.depth == 0 else fi.where(),
+           "in strict mode the rejection is reached whenever some requested name is not a field (not only when all of them are "
+           "missing, and not when they are present)%s" % txt)
     chk.ob("R07.reject", q + "::no-field-left", _no_field_left(it, alloc), fi.where(), "an empty result is rejected")
     _empty_result_rejected(chk, fi, it, alloc, fi.params[1], "any requested name is a field")
     # every use of the names argument as a collection (iteration, membership test, conversion) sees the wrapped value
@@ -2168,6 +2317,42 @@ def _names_of(seg):
         return None
     F = seg.elem[1]
     return F if _in_order_over(seg.loops[0], F) and seg.elem[2] == ("K", seg.loops[0].id) else None
+
+
+def _peel_conversions(v):
+    """(the value behind array conversions, the explicit types it is converted to, conversions whose type is not known):
+    np.array / asarray / asanyarray (with or without a dtype) and .astype(<type>)"""
+    dts, rest = [], []
+    for _ in range(6):
+        if not (isinstance(v, tuple) and v):
+            break
+        if v[0] == "NORM" and v[2] == "array":
+            if len(v) > 4:
+                dts.append(v[4])
+            v = v[1]
+        elif v[0] == "MCALL" and v[1] == "astype" and len(v) == 4:
+            if len(v[3]) >= 1:
+                dts.append(v[3][0])
+            else:
+                rest.append(v)
+            v = v[2]
+        elif v[0] == "CALL" and v[1] in ("array", "asarray", "asanyarray", "astype") and len(v) == 3 and v[2]:
+            rest.append(v)
+            v = v[2][0]
+        else:
+            break
+    return v, dts, rest
+
+
+def _record_field_type(t, arr):
+    """t is the type of one field as the record dtype of `arr` stores it: arr.dtype[<name>] or arr.dtype.fields[<name>][0]
+    (for a sub-array field: the (base, shape) type, not the base type a view arr[<name>] has)"""
+    if not (isinstance(t, tuple) and t and t[0] == "ITEM" and len(t) == 3):
+        return False
+    if t[1] == ("DT", arr):
+        return True
+    b = t[1]
+    return t[2] == ("C", 0) and isinstance(b, tuple) and b and b[0] == "ITEM" and b[1] == ("FIELDS", ("DT", arr))
 
 
 def _unwrap_vals(it, v):
@@ -2434,7 +2619,7 @@ def copiers(chk, repo):
     stores = [e for e in it.of("store") if e.d["base"] == arr]
     good = bad = False
     for e in stores:
-        k, v = e.d["key"], e.d["value"]
+        k, v = e.d["key"], _peel_conversions(e.d["value"])[0]
         if k[0] == "ELEM" and v[0] == "ELEM":
             # both are "the element of a sequence visited by a loop": the same loop over both parameters in step, or not
             lp = [x for x in e.loops if x.id == k[2]]
@@ -2448,6 +2633,29 @@ def copiers(chk, repo):
     chk.ob("R07.copier", q + "::assigns-value-by-name", _tri(good and not bad, bad), fi.where(),
            "copy_fields_by_name pairs names with values positionally and assigns arr[name] = val (%s)"
            % (it.failed or [(_show(e.d["key"]), _show(e.d["value"]), list(e.loops)) for e in stores]))
+    # the value reaches the field as it was supplied.  What numpy does with `arr[name] = val` (cast to the field's base type, broadcast
+    # over the array and over the field's sub-array shape) is the documented behaviour ("scalars or their shape must match the
+    # underlying structure of the field").  A conversion of the value to the field's type *as the record dtype stores it*
+    # (arr.dtype[name], arr.dtype.fields[name][0]) is not that: for a sub-array field this type is (base, shape), and an array
+    # constructor / astype given such a type turns every element of the value into a whole sub-array, so a value of the field's
+    # shape no longer fits (or lands transposed).  Conversions to any other explicit type are not decided here.
+    asgiven = retyped = False
+    unrec = []
+    for e in stores:
+        inner, dts, rest = _peel_conversions(e.d["value"])
+        rec = [d for d in dts if _record_field_type(d, arr)]
+        if rec:
+            retyped = True
+            unrec.append("`%s` is converted to `%s` before it is assigned: the record type of a sub-array field is (base, shape), which "
+                         "expands every element of the value into a sub-array" % (_show(inner), _show(rec[0])))
+        elif dts or rest or not (inner[0] == "ELEM" and _param_of(inner[1]) == pv):
+            unrec.append("`%s` (not recognised)" % _show(e.d["value"]))
+        else:
+            asgiven = True
+    chk.ob("R07.copier", q + "::value-stored-as-given", False if retyped else (True if asgiven and not unrec and it.failed is None else None),
+           _where(fi, ([e for e in stores if any(_record_field_type(d, arr) for d in _peel_conversions(e.d["value"])[1])] or [None])[0]),
+           "the supplied value itself is assigned to the field (never re-typed to the field's record type, which carries the sub-array shape)%s"
+           % (": " + "; ".join(unrec[:2]) if unrec else ""))
 
     def lens(g):
         c = g.cond
